@@ -399,6 +399,25 @@ def corpus(ctx, drv):
                     update_case(ctx, drv, root, 'update', p, {'hashes': ['SHA1'], 'profile': 'default'}, 'corpus/update', scen_extra=extra)
             finally:
                 trees.rmtree(root)
+    # F14 and relatives: a package directory whose `files` is a regular file, or whose files/ holds a Manifest, under every profile
+    for prof in PROFILES:
+        for variant in ('files-is-a-file', 'manifest-inside-files', 'files-without-package-manifest'):
+            root = common.scratch_dir('gv.c18k.')
+            try:
+                pkg = {'bar-1.ebuild': ('f', b'EAPI=8', None), 'metadata.xml': ('f', b'<pkgmetadata/>', None)}
+                if variant == 'files-is-a-file':
+                    pkg['files'] = ('f', b'not a directory', None)
+                elif variant == 'manifest-inside-files':
+                    pkg['files'] = ('d', {'fix.patch': ('f', b'--- a', None), 'Manifest': ('f', b'', None)})
+                else:
+                    pkg = {'files': ('d', {'fix.patch': ('f', b'--- a', None)})}
+                trees.materialise(('d', {'dev-foo': ('d', {'bar': ('d', pkg)}), 'profiles': ('d', {'categories': ('f', b'dev-foo\n', None)})}), root)
+                end = update_case(ctx, drv, root, 'create', '', {'hashes': ['SHA1'], 'profile': prof}, f'corpus/create-{prof}/{variant}')
+                if end.get('status') == 0:
+                    update_case(ctx, drv, root, 'update', 'dev-foo/bar', {'hashes': ['SHA1'], 'profile': prof}, f'corpus/update-sub-{prof}/{variant}')
+                    verify_case(ctx, drv, root, '', False, 'corpus/verify-after')
+            finally:
+                trees.rmtree(root)
     # F26: default-profile create, then ebuild-profile update, with a default-ignored file present / gone meanwhile
     for gone in (False, True):
         root = common.scratch_dir('gv.c18k.')
